@@ -4,6 +4,7 @@ particular to specify the length limits for field values and the characters allo
 format.
 """
 import decimal
+import re
 
 # Copyright (C) 2009-2021 Thomas Aglassinger
 #
@@ -25,6 +26,9 @@ from cutplace import _compat, _tools, errors
 
 #: '...' as single character.
 ELLIPSIS = "\u2026"
+
+#: Regular expression matching either a quoted text (group 1) or an ellipsis.
+_QUOTED_TEXT_OR_ELLIPSIS_REGEX = re.compile(r"""("(?:\\.|[^"\\])*"|'(?:\\.|[^'\\])*')|""" + ELLIPSIS, re.DOTALL)
 
 MAX_INTEGER = 2**31 - 1
 MIN_INTEGER = -(2**31)
@@ -48,6 +52,21 @@ DEFAULT_PRECISION = len(MAX_DECIMAL_TEXT.split(".")[1])
 #: Scale (total number of digits) to use for decimal numbers if no range is
 #: specified.
 DEFAULT_SCALE = len(MAX_DECIMAL_TEXT) - 1
+
+
+def _tokens_for_range(description):
+    """
+    Tokens for range ``description`` with any ellipsis outside of quoted text
+    surrounded by blanks, so it becomes a separate token even when Python's
+    tokenizer considers :py:const:`ELLIPSIS` to be part of a name (as it does
+    starting with Python 3.12).
+    """
+    assert description is not None
+
+    def separated_ellipsis(match):
+        return match.group(0) if match.group(1) is not None else " " + ELLIPSIS + " "
+
+    return _tools.tokenize_without_space(_QUOTED_TEXT_OR_ELLIPSIS_REGEX.sub(separated_ellipsis, description))
 
 
 def code_for_number_token(name, value, location):
@@ -211,7 +230,7 @@ class Range(object):
 
             name_for_code = "range"
             location = None  # TODO: Add location where range is declared.
-            tokens = _tools.tokenize_without_space(self._description)
+            tokens = _tokens_for_range(self._description)
             end_reached = False
             while not end_reached:
                 lower = None
@@ -222,7 +241,9 @@ class Range(object):
                 while not _tools.is_eof_token(next_token) and not _tools.is_comma_token(next_token):
                     next_type = next_token[0]
                     next_value = next_token[1]
-                    if next_type in (token.NAME, token.NUMBER, token.STRING):
+                    if next_value == ELLIPSIS and not after_hyphen:
+                        ellipsis_found = True
+                    elif next_type in (token.NAME, token.NUMBER, token.STRING):
                         if next_type == token.NAME:
                             # Symbolic names, e.g. ``tab``.
                             value_as_int = code_for_symbolic_token(name_for_code, next_value, location)
@@ -545,7 +566,7 @@ class DecimalRange(Range):
         else:
             self._description = description.replace("...", ELLIPSIS)
             self._items = []
-            tokens = _tools.tokenize_without_space(self._description)
+            tokens = _tokens_for_range(self._description)
             end_reached = False
             max_digits_after_dot = 0
             max_digits_before_dot = 0
